@@ -88,3 +88,9 @@ package intconv
 //@   ensures [accept] ok == (len(bs) == 0 || (len(bs) <= 8 && int64(dec_u64(arr(bs), off(bs), len(bs))) >= 0))
 //@   ensures [value] ok && len(bs) > 0 ==> uint64(v) == dec_u64(arr(bs), off(bs), len(bs))
 //@   ensures [empty] len(bs) == 0 ==> v == 0
+
+// C15 / C26: big.Int byte conversion used for event data only (its format is C24's uncovered part)
+//@ property C15 C26 C24
+//@ func BigIntToBytes(i) (bs)
+//@   trusted
+//@   pure
